@@ -11,6 +11,8 @@ for mp in sorted(glob.glob(os.path.join(ROOT, "*", "meta.json"))):
     m = json.load(open(mp))
     s = mp.split("/")[-2]
     r = m.get("revalidated", {})
+    if not r:       # kept after the last sweep: the confirmation run of tools/process_seeds.sh is its record
+        r = {"repo_head": "kept", "outcome": m.get("confirmed_by_coordinator", {}).get("outcome", "(not revalidated)")}
     rows.append("%s %s %s%s" % (r.get("repo_head", "-"), s, r.get("outcome", "(not revalidated)"),
                                 ("  [obsolete: " + m["obsolete"][:90] + "...]") if m.get("obsolete") else ""))
 with open(os.path.join(ROOT, "REVALIDATION.log"), "w") as f:
